@@ -105,7 +105,10 @@ Inductive case :=
   (* the step table and LastSchemaVersion read from the source *)
   | CTable (names : list string) (last : Z)
   (* timeutil.Duration(ns).String() *)
-  | CDur (ns : Z) (text : string).
+  | CDur (ns : Z) (text : string)
+  (* loader side (monitor only): an upgraded repository example was accepted
+     by yaml.Unmarshal into the configuration type and validateConfig *)
+  | CLoader (accepted : bool).
 
 Definition res_ok (r : res obj) (cls : Z) (out : obj) : bool :=
   match r with
@@ -130,6 +133,7 @@ Definition case_ok (c : case) : bool :=
       eqb_list String.eqb names (map fst (steps (mk_oracles {| t_quic := []; t_addr := []; t_glob := "" |})))
       && Z.eqb last last_version && Z.eqb last (Z.of_nat (length names))
   | CDur ns text => String.eqb (dur_string ns) text
+  | CLoader accepted => accepted
   end.
 
 Definition mismatches := Base.Run.mismatches case_ok.
@@ -152,4 +156,5 @@ Definition explain (c : case) : Z * val :=
   | CParseErr _ => (0%Z, VNull)
   | CTable _ _ => (last_version, VNull)
   | CDur ns _ => (ns, VStr (dur_string ns))
+  | CLoader _ => (1%Z, VNull)
   end.
